@@ -24,6 +24,8 @@ pub enum Watch {
     Router,
     /// the receiver is already blocked in recv (or mid-reassembly) while the sender dies
     BlockedDuring,
+    /// try_recv_timeout: long when a result is due (it must come back early), short otherwise
+    Timed,
 }
 
 #[derive(Clone, Debug, Serialize, Deserialize, PartialEq, Eq, Hash)]
@@ -110,7 +112,8 @@ fn classify(m: Msg, packets: usize, attach: bool) -> Result<Seen, String> {
 }
 
 enum Watcher {
-    Direct(IpcReceiver<Msg>, bool),
+    /// 0 = try_recv, 1 = recv where a result is due, 2 = try_recv_timeout
+    Direct(IpcReceiver<Msg>, u8),
     Set(IpcReceiverSet, u64, VecDeque<Seen>),
     Router(crossbeam_channel::Receiver<Seen>),
 }
@@ -126,8 +129,13 @@ impl Watcher {
     /// `due`: the ideal channel has a result for a blocking call right now
     fn next(&mut self, due: bool, packets: usize, attach: bool) -> Result<Option<Seen>, String> {
         match self {
-            Watcher::Direct(rx, blocking) => {
-                let res = if *blocking && due { rx.recv().map_err(TryRecvError::IpcError) } else { rx.try_recv() };
+            Watcher::Direct(rx, mode) => {
+                let res = match (*mode, due) {
+                    (1, true) => rx.recv().map_err(TryRecvError::IpcError),
+                    (2, true) => rx.try_recv_timeout(std::time::Duration::from_secs(30)),
+                    (2, false) => rx.try_recv_timeout(std::time::Duration::from_millis(2)),
+                    _ => rx.try_recv(),
+                };
                 Ok(Some(match res {
                     Ok(m) => classify(m, packets, attach)?,
                     Err(TryRecvError::Empty) => Seen::Empty,
@@ -379,8 +387,9 @@ pub fn body(c: &Case) -> Result<(), String> {
     // observe
     let mut keep_proxy = None;
     let mut w = match c.watch {
-        Watch::Blocking => Watcher::Direct(rx, true),
-        Watch::Try => Watcher::Direct(rx, false),
+        Watch::Blocking => Watcher::Direct(rx, 1),
+        Watch::Try => Watcher::Direct(rx, 0),
+        Watch::Timed => Watcher::Direct(rx, 2),
         Watch::Select => {
             let mut set = IpcReceiverSet::new().map_err(|e| e.to_string())?;
             let id = set.add(rx).map_err(|e| e.to_string())?;
@@ -518,13 +527,13 @@ pub fn cfg_of(c: &Case) -> Cfg {
 
 pub fn cases(tier: Tier) -> Result<Vec<Case>, String> {
     let mut v = Vec::new();
-    let packets: Vec<usize> = if tier.is_quick() { vec![1, 2, 4] } else { vec![1, 2, 3, 4, 5, 6] };
+    let packets: Vec<usize> = if tier.is_quick() { vec![1, 2, 4] } else { vec![1, 2, 3, 4, 5, 6, 7, 8, 12] };
     for &p in &packets {
         for attach in [false, true] {
             let n = measure(p, attach)?;
             for k in 0..=n {
                 for survivor in [false, true] {
-                    for watch in [Watch::Blocking, Watch::Try, Watch::Select, Watch::Router, Watch::BlockedDuring] {
+                    for watch in [Watch::Blocking, Watch::Try, Watch::Timed, Watch::Select, Watch::Router, Watch::BlockedDuring] {
                         for preceding in [false, true] {
                             if tier.is_quick() && preceding && !(watch == Watch::Blocking || watch == Watch::Select) {
                                 continue;
@@ -566,7 +575,7 @@ pub fn run(tier: Tier, _part: bool) -> i32 {
     }
     rep.set("evaluations", json!(n));
     rep.set("distinct_nontrivial", json!(outcomes.len()));
-    rep.set("rule", json!("case = (message of 1..6 packets [1,2,4 quick], with/without sender+region, 0/1 completed message before, crash index k = every transport system call boundary of that send 0..=N [N measured by a dry run: socketpair, sendmsg, each send, each close], 0/1 surviving sender handle in another process, observer in {blocking recv where a result is due, try_recv, receiver set, router callback, receiver already blocked in recv while the sender dies}); distinct_nontrivial = distinct (case, observation log) outcomes that passed"));
+    rep.set("rule", json!("case = (message of 1..8 and 12 packets [1,2,4 quick], with/without sender+region, 0/1 completed message before, crash index k = every transport system call boundary of that send 0..=N [N measured by a dry run: socketpair, sendmsg, each send, each close], 0/1 surviving sender handle in another process, observer in {blocking recv where a result is due, try_recv, try_recv_timeout, receiver set, router callback, receiver already blocked in recv while the sender dies}); distinct_nontrivial = distinct (case, observation log) outcomes that passed"));
     rep.set("exhaustive", json!(true));
     rep.sample(serde_json::to_value(&cs[cs.len() / 2]).unwrap());
     rep.sample(serde_json::to_value(&cs[cs.len() - 1]).unwrap());
